@@ -9,6 +9,7 @@ From SV Require Import Model.Scene.
 From SV Require Import Model.Brdf.
 From SV Require Import Model.Frame.
 From SV Require Import Model.Tiling.
+From SV Require Import Model.Validate.
 Require Extraction.
 From Coq Require Import ExtrOcamlBasic.
 Extraction Language OCaml.
@@ -17,4 +18,4 @@ Extraction "model.ml"
   order_k directed delay_floor delay_ceil tilde p2o vis_pairs delay_matrix n_samples e0dir
   delay0 energy0 src_dist patch_hist patchwise mono_of mono direct_val direct_bin norm_weights
   from_scattering from_directional rot rotT wall_dirs create_patches total_number_of_patches
-  tiling_defined process kang_patches patch_center patch_area.
+  tiling_defined process kang_patches patch_center patch_area construct.
